@@ -54,10 +54,21 @@ func (fr *Frame) loc(instr ssa.Instruction) string {
 	return fmt.Sprintf("%s:b%d.%d", shortFn(fr.fn), b.Index, idx)
 }
 
+// fnAlias: function literals under a contract whose ordinal moved are known by the name of their contract; another
+// literal that now carries that ordinal gets a mark so that the two are never confused.
+var fnAlias = map[*ssa.Function]string{}
+var aliasTaken = map[string]bool{}
+
 func shortFn(fn *ssa.Function) string {
+	if a, ok := fnAlias[fn]; ok {
+		return a
+	}
 	s := fn.String()
 	s = strings.ReplaceAll(s, "github.com/bluenviron/gomavlib/v3/pkg/", "")
 	s = strings.ReplaceAll(s, "github.com/bluenviron/gomavlib/v3", "gomavlib")
+	if aliasTaken[s] {
+		s += "~moved"
+	}
 	return s
 }
 
@@ -349,12 +360,53 @@ func (fr *Frame) bindValues(lc *LoopContract, b *ssa.BasicBlock) []Value {
 			found = fr.bindByType(lc, b, bd)
 		}
 		if found == nil {
+			// a counting loop rewritten as a range loop or the reverse: at the loop header the counter of
+			// `for i := 0; i < n; i++` is the range index plus one (go/ssa starts the range index at -1 and increments it
+			// before the test).  As above, a wrong guess proves nothing false.
+			if v := fr.bindAcrossLoopForms(lc, b, bd); v != nil {
+				out = append(out, v)
+				continue
+			}
+		}
+		if found == nil {
 			fr.st.oblige("bind", fmt.Sprintf("bind:loop%d:%s", lc.Ord, bd.Name), False)
 			unsup("loop bind %s not found", bd.SSAName)
 		}
 		out = append(out, fr.get(found))
 	}
 	return out
+}
+
+func (fr *Frame) bindAcrossLoopForms(lc *LoopContract, b *ssa.BasicBlock, want LoopBind) Value {
+	if want.Type != "int" {
+		return nil
+	}
+	if want.SSAName != "rangeindex" {
+		for _, in := range b.Instrs {
+			if phi, ok := in.(*ssa.Phi); ok && phi.Comment == "rangeindex" {
+				if t, ok := fr.get(phi).(*Term); ok {
+					return Add(t, Const(64, 1))
+				}
+			}
+		}
+		return nil
+	}
+	named := map[string]bool{}
+	for _, bd := range lc.Binds {
+		named[bd.SSAName] = true
+	}
+	for _, in := range b.Instrs {
+		phi, ok := in.(*ssa.Phi)
+		if !ok || named[phi.Comment] {
+			continue
+		}
+		if bt, ok := phi.Type().Underlying().(*types.Basic); ok && bt.Kind() == types.Int {
+			if t, ok := fr.get(phi).(*Term); ok {
+				return Sub(t, Const(64, 1))
+			}
+		}
+	}
+	return nil
 }
 
 func (fr *Frame) bindByType(lc *LoopContract, b *ssa.BasicBlock, want LoopBind) ssa.Value {
@@ -411,9 +463,16 @@ func (fr *Frame) loopHeader(b, prev *ssa.BasicBlock, lrt *loopRT) {
 	newPhi := map[*ssa.Phi]Value{}
 	for _, in := range b.Instrs {
 		if phi, ok := in.(*ssa.Phi); ok {
+			// a merged `if` whose join is this very header (the last statement of a range-loop body): the merged values
+			// are the incoming ones; taking the edge of the `if` block alone would drop the executions of its branch
+			if v, ok := fr.mergedPhis[phi]; ok {
+				newPhi[phi] = v
+				continue
+			}
 			newPhi[phi] = fr.phiValue(phi, b, prev)
 		}
 	}
+	fr.mergedPhis = nil
 	for phi, v := range newPhi {
 		fr.env[phi] = v
 	}
